@@ -1,0 +1,22 @@
+//! Read-only accessors used by external verification tooling.
+//!
+//! Compiled only with the `verif-hooks` feature; adds no behaviour.
+
+use crate::bdd_arithmetic::{GetBitCircuitInfo, circuits};
+
+/// Returns the statically compiled u32 word circuits as `(name, circuit)` pairs.
+pub fn u32_circuits() -> Vec<(&'static str, &'static dyn GetBitCircuitInfo)> {
+    vec![
+        ("add", &circuits::u32::add_codegen::OUTPUT_CIRCUITS),
+        ("sub", &circuits::u32::sub_codegen::OUTPUT_CIRCUITS),
+        ("sll", &circuits::u32::sll_codegen::OUTPUT_CIRCUITS),
+        ("srl", &circuits::u32::srl_codegen::OUTPUT_CIRCUITS),
+        ("sra", &circuits::u32::sra_codegen::OUTPUT_CIRCUITS),
+        ("slt", &circuits::u32::slt_codegen::OUTPUT_CIRCUITS),
+        ("sltu", &circuits::u32::sltu_codegen::OUTPUT_CIRCUITS),
+        ("and", &circuits::u32::and_codegen::OUTPUT_CIRCUITS),
+        ("or", &circuits::u32::or_codegen::OUTPUT_CIRCUITS),
+        ("xor", &circuits::u32::xor_codegen::OUTPUT_CIRCUITS),
+        ("identity", &circuits::u32::identity_codgen::OUTPUT_CIRCUITS),
+    ]
+}
